@@ -2581,9 +2581,14 @@ class Env(cabc.MutableMapping):
         else:
             ctx = {}
             items = dict(self._d)
-        # Apply overlay values on top (most recent overlay wins)
+        # Apply overlay values on top (most recent overlay wins). Alias code
+        # puts them into a plain dict (``env['MANPATH'] = '/a:/b'``), so they
+        # get the type of their variable here, like values given to ``swap``.
         for overlay in self._overlay_stack:
-            items.update(overlay)
+            for key, val in overlay.items():
+                if val is not DELETE_VAR and not self.get_validator(key)(val):
+                    val = self.get_converter(key)(val)
+                items[key] = val
         for key, val in items.items():
             # Skip variables masked by DELETE_VAR — they must not reach
             # subprocess.Popen as a stringified sentinel.
